@@ -179,13 +179,37 @@ func check(u *Universe, T map[string]Dep) (defects []string, labels []string) {
 		var mods []*Mod
 		if it.ctx != nil && major == "" {
 			// an external package: unversioned imports use the importing
-			// module's own default major versions when those resolve
+			// module's own default major versions. The module they name is
+			// looked up in the requirement graph (the importing module is
+			// listed, so its requirements are part of the pruned graph); when
+			// it provides the package it is the provider and must be listed.
 			ctxDef := newDefaults(it.ctx.Deps)
-			found, mods = candidates(ipath, "", ctxDef.get)
-			if len(found) != 1 {
-				found, mods = nil, nil
-			} else {
+			var viaGraph []pkgKey
+			var viaMods []*Mod
+			for prefix := ipath; prefix != "." && prefix != "/"; prefix = path.Dir(prefix) {
+				mj := ctxDef.get(prefix)
+				if mj == "" {
+					continue
+				}
+				mp := prefix + "@" + mj
+				v, ok := selected[mp]
+				if !ok {
+					continue
+				}
+				dir := strings.TrimPrefix(strings.TrimPrefix(ipath, prefix), "/")
+				if m := u.lookup(mp, v); m != nil && m.pkg(dir) != nil {
+					viaGraph = append(viaGraph, pkgKey{mp, dir})
+					viaMods = append(viaMods, m)
+				}
+			}
+			if len(viaGraph) == 1 {
 				labels = append(labels, "dep-default-major")
+				k := viaGraph[0]
+				if d, ok := T[k.mod]; !ok || d.V != selected[k.mod] {
+					defects = append(defects, fmt.Sprintf("insufficient: import %q in %s means %s under that module's own default major version, which is not listed", it.imp, ctxName(it.ctx), k.mod))
+					continue
+				}
+				found, mods = viaGraph, viaMods
 			}
 		}
 		if found == nil {
